@@ -202,6 +202,7 @@ impl RawGen {
             unreadable: vec![],
             fs_write_faults: vec![],
             file_updates: vec![],
+            no_working_directory: false,
         }
     }
 
